@@ -274,6 +274,17 @@ class World(Sim):
             return None
         gs = self.groups_of_batch(b)
         g = gs[group_ref % len(gs)]
+        # known finding: with two cancelled groups on one ancestor chain is_job_cancelled() returns two rows (error 1242)
+        canc = {x['job_group_id'] for x in self.q('SELECT job_group_id FROM job_groups_cancelled WHERE id = %s', (b['id'],))}
+        if canc and g not in canc:
+            anc = self.q('SELECT job_group_id, ancestor_id FROM job_group_self_and_ancestors WHERE batch_id = %s', (b['id'],))
+            up = {x['ancestor_id'] for x in anc if x['job_group_id'] == g}
+            down = {x['job_group_id'] for x in anc if x['ancestor_id'] == g}
+            if (up | down) & canc:
+                if 'is-job-cancelled-1242-two-cancelled-ancestors' in self.guards:
+                    self.excluded += 1
+                    return None
+                self.flags.append('is-job-cancelled-1242-two-cancelled-ancestors')
         r = await self._guard(self.m.fe._cancel_job_group(self.app, b['id'], g))
         r['group'] = g
         r['batch_id'] = b['id']
@@ -323,6 +334,8 @@ class World(Sim):
         inst = self.instances.get(self._pick(self.inst_list, inst_i))
         if inst is None:
             return None
+        if reason == 'activation_timeout' and inst.state != 'pending':
+            reason = 'terminated'      # the monitor only reports an activation timeout for an instance that never activated
         return await self._guard(inst.deactivate(reason, self.now_ms()))
 
     async def op_mark_deleted(self, inst_i):
@@ -495,6 +508,25 @@ WHERE {where} ORDER BY jobs.batch_id, jobs.job_id''', args)
         for x in new:
             self.attempts.append(dict(batch_id=x['batch_id'], job_id=x['job_id'], attempt_id=x['attempt_id'], instance=x['instance_name']))
         r['new_attempts'] = [(x['batch_id'], x['job_id'], x['attempt_id'], x['instance_name']) for x in new]
+        return r
+
+    async def op_burst(self, pool_i=0, res_sel=1, dt=1000):
+        """composite: one scheduler pass, every newly placed attempt reports started (with resources), the clock advances, the
+        instances send a billing heartbeat.  Only a shortcut to reach billed attempts; every step is the same real code as the
+        single ops."""
+        r = await self.op_sched_loop(pool_i)
+        if r is None or not r.get('ok'):
+            return r
+        new = r.get('new_attempts', [])
+        for (b, j, att, inst) in new:
+            idx = next((i for i, a in enumerate([x for x in self.attempts if x['instance'] in self.instances and self.instances[x['instance']].state == 'active'])
+                        if a['attempt_id'] == att), None)
+            if idx is not None:
+                await self.op_started(idx, 0, [[res_sel, 1], [res_sel + 3, 2]])
+        self.tick(int(dt))
+        for i in range(len([n for n in self.inst_list if self.instances[n].state == 'active'])):
+            await self.op_billing(i, 0, 0)
+        r['burst'] = len(new)
         return r
 
     async def op_cancel_ready(self):
